@@ -117,6 +117,11 @@ func C05real(r *ev.Report) {
 func init() {
 	Parts["C05real"] = Part{"C05", C05real}
 	Replayers["C05"] = func(c Case) (bool, string) {
+		switch c["op"] {
+		case "bin", "equals", "unary", "predicate", "neighbour", "sqrt", "parse", "wide":
+			return Replayers["C12"](c)
+		}
+
 		if c["op"] == "persist" {
 			return Replayers["C10"](c)
 		}
